@@ -86,6 +86,22 @@ def cases(tier: str, rng: random.Random) -> List[Case]:
                 cs2 = std_case(wv2, wx2, m, lazy=lazy or lazy2, tag="a:ctx2:" + c2 + "/" + c1)
                 cs2.extra = {"ctxs": [G.S(c2), G.S(c1)]}
                 out.append(cs2)
+    # a present member whose value is None is a member like any other (both entry points, nesting)
+    INTV = ("Scalar", ("KInt",), None, [], [], [])
+    none_ok = [("OptionalV", ("NoneV", None), INTV), ("NoneV", None), ("AlwaysValid",), ("UnionV", [("NoneV", None), INTV]), INTV]
+    for v in none_ok:
+        for x in (G.NONE, G.I(1), G.S("s")):
+            for c1 in ("record", "dictany", "class", "mapval", "list", "ntuple", "maybe"):
+                for m in ("sync", "async"):
+                    wv, wx, lazy = wrap(c1, v, x, rng)
+                    cs = std_case(wv, wx, m, lazy=lazy, tag="a:ctx-none:" + c1)
+                    cs.extra = {"ctxs": [G.S(c1)]}
+                    out.append(cs)
+                    c2 = rng.choice(["list", "record", "dictany", "optional", "cache", "union1"])
+                    wv2, wx2, lazy2 = wrap(c2, wv, wx, rng)
+                    cs2 = std_case(wv2, wx2, m, lazy=lazy or lazy2, tag="a:ctx2-none:" + c2 + "/" + c1)
+                    cs2.extra = {"ctxs": [G.S(c2), G.S(c1)]}
+                    out.append(cs2)
     # refinement pairs: base validator and its refinement on the same input
     for _ in range(n):
         v = G.gen_validator(rng, rng.choice([0, 1, 2]))
